@@ -298,6 +298,7 @@ pub fn run_jobs_into(ck: &mut Check, jobs: Vec<Job>, blocked_is_violation: bool)
     let mut blocked = 0u64;
     let mut capped = 0u64;
     let mut max_trace = 0usize;
+    let mut max_exec_ms = 0u64;
     let mut by_devs: std::collections::BTreeMap<usize, u64> = Default::default();
     let mut kinds: std::collections::BTreeMap<u8, u64> = Default::default();
     let mut min_bound = usize::MAX;
@@ -315,6 +316,7 @@ pub fn run_jobs_into(ck: &mut Check, jobs: Vec<Job>, blocked_is_violation: bool)
         max_bound = max_bound.max(r.bound_completed);
         *by_bound.entry(r.bound_completed).or_insert(0) += 1;
         max_trace = max_trace.max(r.max_trace);
+        max_exec_ms = max_exec_ms.max(r.max_exec_ms);
         for (k, v) in &r.execs_by_devs {
             *by_devs.entry(*k).or_insert(0) += v;
         }
@@ -366,6 +368,9 @@ pub fn run_jobs_into(ck: &mut Check, jobs: Vec<Job>, blocked_is_violation: bool)
     ck.cov_add("e3_distinct_outcomes", outcomes.len() as u64);
     ck.cov_add("e3_distinct_nontrivial_outcomes", nontrivial.len() as u64);
     ck.cov("e3_max_choice_points_in_one_execution", max_trace as u64);
+    let prev = ck.coverage.get("e3_longest_execution_ms").and_then(|v| v.as_u64()).unwrap_or(0);
+    ck.cov("e3_longest_execution_ms", prev.max(max_exec_ms));
+    ck.cov("e3_execution_deadline_s", 90u64);
     ck.cov(
         "e3_executions_by_deviations",
         json!(by_devs.iter().map(|(k, v)| (k.to_string(), *v)).collect::<std::collections::BTreeMap<_, _>>()),
